@@ -557,7 +557,7 @@ func evalHugeM(hc hugeMCase) *Failure {
 	return nil
 }
 
-// searches on 12..32 vertices for families so small that their classes are known in closed form (the labelling
+// searches on 12..28 vertices for families so small that their classes are known in closed form (the labelling
 // code then works on cells of more than 20 vertices): star + isolated vertices (n classes, one per edge count),
 // matchings (floor(n/2)+1 classes), graphs with at most two edges (4 classes for n >= 4).
 type tinyCase struct {
@@ -711,9 +711,10 @@ func runC03(c *Ctx) {
 	}
 	{
 		var tcs []tinyCase
-		ns := []int{12, 16, 20, 21, 22, 23, 24, 28}
+		// (the iterator allocates C(n, n/2) ints: 21 MB at n = 24, 320 MB at n = 28, 4.8 GB at n = 32 - the sizes stop there)
+		ns := []int{12, 16, 20, 21, 22, 23, 24}
 		if c.Thorough() {
-			ns = append(ns, 32, 40, 48)
+			ns = append(ns, 25, 26, 28)
 		}
 		for _, n := range ns {
 			for _, fam := range []string{"star", "matching", "two-edges"} {
